@@ -33,6 +33,7 @@ EXPLANATION = (
     "construction of mode statistics only through the validating constructor, sibling agreement of the two factories, "
     "same-cluster extraction and the cluster-cap wiring are decided structurally. Finiteness of fitted means and "
     "positivity of fitted degrees of freedom are numerical and not decided."
+    " Also under (a): the arrays fitted and labelled by the shared clusterer are rows of the stored positions in one frame (no arithmetic on the way in)."
 )
 ASSUMPTIONS = ["np.linalg.cholesky raises unless its argument is symmetric positive definite", "clusterer attributes are only assigned by its own methods",
                "the trainer and resampler read the same beta in one iteration (C05.e: nothing writes beta between them)"]
